@@ -714,6 +714,25 @@ theorem C13_directive_lines_lexed (k : Nat) (cm : Option (Nat × Str)) (w : Char
 example : constantWord = "!constant".toList ∧ unitWord = "$unit".toList ∧ isWs ' ' = true ∧
     NoEsc (' ' :: "length = 1 m".toList) := ⟨by decide, by decide, by decide, by show ∀ c ∈ _, c ≠ '\\' ∧ c ≠ '\n'; decide⟩
 
+/-- **…and from the string.**  The same for the single string handed to `add_string`: the described lines joined by
+    newlines (no block values: no line contains `"""`).  What the driver runs against the real parser,
+    `parseText` on the program text, agrees with the declarative specification on the abstract lines the text denotes
+    (both succeed with the same parameters, or both fail). -/
+theorem C13_program_string (P : Params) (prog : List (Nat × LineD)) (hne : prog ≠ [])
+    (h : ∀ p ∈ prog, p.2.Ok ∧ NoEsc p.2.render) (hq : ∀ p ∈ prog, hasTriple (List.replicate p.1 ' ' ++ p.2.render) = false) :
+    ResEq ((parseText P (joinWith ['\n'] (prog.map (fun p => List.replicate p.1 ' ' ++ p.2.render)))).map (List.map toS))
+      (specRunG (castInterp P) P.conv P.unitKnown (prog.map (fun p => p.2.aline p.1))) := by
+  rw [C13_text_is_lines P _ (by simpa using hne)]
+  · exact (C13_program_text P prog h).2.2
+  · intro l hl c hc
+    obtain ⟨p, hp, rfl⟩ := List.mem_map.mp hl
+    rcases List.mem_append.mp hc with h1 | h1
+    · rw [List.eq_of_mem_replicate h1]; decide
+    · exact ((h p hp).2 c h1).2
+  · intro l hl
+    obtain ⟨p, hp, rfl⟩ := List.mem_map.mp hl
+    exact hq p hp
+
 /-- **Escaped quotes.**  A definition whose double-quoted value is written with `\\"` for every quote
     character of the intended text `s` (`s` itself free of backslash, newline and `$`): the lexer marks
     the escapes (`$@01`), finds the closing quote, and hands back exactly `s` — the backslashes are gone,
